@@ -73,7 +73,8 @@ Proof. exact setup_py_all_programs_attrs. Qed.
 Print Assumptions C13_setup_py_all_programs_partial.
 
 (* logging.captureWarnings: switched off again when this analysis switched it on, left on when it
-   was on before - every script that leaves the two attributes alone, every ending.
+   was on before - every script that leaves the two attributes alone and os.path.abspath working
+   (the undo is the last statement of the finally block), every ending.
    Replaces C13_capture_warnings_refuted. *)
 Theorem C13_capture_warnings_undone : forall root hook cy p s v w,
   host_function_unaliased k_exit s ->
@@ -82,6 +83,7 @@ Theorem C13_capture_warnings_undone : forall root hook cy p s v w,
   forallb (fun o => negb (touches k_saved_showwarning o)) (fst p) = true ->
   get k_showwarning s = Some v -> v <> VNone -> v <> v_logging_showwarning ->
   get k_saved_showwarning s = Some w ->
+  callable (mk_env root hook cy false s) (pre_exit_state (mk_env root hook cy false s) p s) = true ->
   exists s', analyse root hook cy false p s = Alive s' /\
     get k_showwarning s' = get k_showwarning s /\ get k_saved_showwarning s' = get k_saved_showwarning s.
 Proof. exact capture_warnings_undone. Qed.
